@@ -3,20 +3,21 @@
 Translator of property C06 (run on every check):   /repo  ->  lean/OdfModel/Generated/Grammar*.lean
 
  (a) grammar/OpenDocument-schema-v1.2-cd04.rng + grammar/OpenDocument-manifest-schema-v1.2-cd1.rng
-     -> one Lean `P` term per <define> (GrammarSchema.lean).  The translation is purely syntactic:
-     every RELAX-NG element becomes the constructor of the same name, children in document order;
-     several <define>s of one name are combined with their `combine` attribute (as RELAX-NG says);
-     names are interned as `Nat` ids (elements, attributes, defines each in their own id space).
+     -> one Lean `P` term per <define> and one `Decl` per <element> (GrammarSchema.lean).  The translation is
+     purely syntactic: every RELAX-NG element becomes the constructor of the same name, children in document
+     order; several <define>s of one name are combined with their `combine` attribute (as RELAX-NG says); every
+     <element> is lifted into the declaration table and replaced by `.element <row>` (RELAX-NG simplification
+     4.19); names are interned as `Nat` ids (elements, attributes, defines each in their own id space).
      What a pattern *means* (mayElems, mayText, mayAttrs, mustAttrs) is Lean code
      (lean/OdfModel/Grammar.lean), not translator code.
  (b) odf/grammar.py imported and dumped into Lean association lists over the same ids
-     (GrammarTables.lean): allowed_children, allows_text, required_attributes, allowed_attributes.
+     (GrammarTables.lean): allowed_children, allows_text, required_attributes, allowed_attributes; plus the
+     keyword of every attribute id (as the numeral of the keyword string; theorem kw_table_ok checks it against
+     the Lean model of `a[1].lower().replace('-','')`).
  (c) the factory inventory (GrammarFactories.lean): for every public function of the element
      modules the qname of f(check_grammar=False), or why it could not be called.
- (d) the name tables (GrammarNames.lean): display name `prefix:local` of every id, as code points
-     (for the hand-written Exceptions / KnownFindings lists, which are written by name) and as
-     strings (driver), the local names as code points and the keyword id the translator believes
-     each attribute has (checked against the Lean `kw` function by theorem `kw_table_ok`).
+ (d) the name tables (GrammarNames.lean): display name `prefix:local` of every id as ONE numeral (its bytes in
+     base 256), which is how the hand-written Exceptions / KnownFindings lists name rows (`n!"text:p"`).
 
 Nothing here decides anything: a construct the translator does not know raises TranslateError.
 """
